@@ -413,6 +413,13 @@ func (c *TermCtx) Cmp(op Op, a, b *Term) *Term {
 	if a == b {
 		return c.Bool(op == OpBvUle || op == OpBvSle)
 	}
+	// canonical atoms: a <= b is written not(b < a), so that a test and its negation share one atom
+	switch op {
+	case OpBvUle:
+		return c.Not(c.Cmp(OpBvUlt, b, a))
+	case OpBvSle:
+		return c.Not(c.Cmp(OpBvSlt, b, a))
+	}
 	if a.IsConst() && c.pushable(b) {
 		return c.mapLeaves(b, func(l *Term) *Term { return c.Cmp(op, a, l) }, map[*Term]*Term{})
 	}
